@@ -6,6 +6,7 @@ use std::io::{self, BufRead, Read, Write};
 mod canon;
 mod enumerate;
 mod lex;
+mod walk;
 
 pub fn read_records() -> Vec<String> {
     let stdin = io::stdin();
@@ -41,6 +42,26 @@ fn main() {
         "tokens" => {
             for rec in read_records() {
                 let line = canon::guarded(|| lex::token_line(&rec));
+                writeln!(out, "{}", line).unwrap();
+            }
+        }
+        "parse" | "expr" | "stmt" | "stmts2" | "stmts3" => {
+            canon::quiet_panics();
+            for rec in read_records() {
+                let line = canon::guarded(|| walk::parse_line(mode, &rec));
+                writeln!(out, "{}", line).unwrap();
+            }
+        }
+        "outcome" => {
+            canon::quiet_panics();
+            for rec in read_records() {
+                let line = canon::guarded(|| match gosyn::parse_source(&rec) {
+                    Ok(f) => {
+                        let _ = format!("{:?}", f);
+                        "OK".to_string()
+                    }
+                    Err(e) => lex::err_loc(&e),
+                });
                 writeln!(out, "{}", line).unwrap();
             }
         }
